@@ -966,7 +966,14 @@ func (ex *Exec) makeIface(st *State, x Val, t types.Type) Val {
 		if c, ok := x.(*ClosureV); ok {
 			return IfaceV{tag, ex.closureRef(c)}
 		}
-		return IfaceV{tag, ex.freshRef(st, "box")}
+		r := ex.freshRef(st, "box")
+		if a, ok := x.(AddrV); ok {
+			if ex.addrBoxes == nil {
+				ex.addrBoxes = map[string]AddrV{}
+			}
+			ex.addrBoxes[r.S] = a
+		}
+		return IfaceV{tag, r}
 	case KStruct:
 		r := ex.freshRef(st, "box")
 		if sv, ok := x.(*StructV); ok {
